@@ -349,6 +349,7 @@ type swEntry struct {
 	Target string // "return" or field name stored
 	Val    string
 	Pos    string
+	Ctx    string // literal of a dominating strings.HasPrefix(x, "..") test (token context), if any
 }
 
 func stringSwitchTables(w *World, tb *TB, f *ssa.Function) []swEntry {
@@ -378,13 +379,21 @@ func stringSwitchTables(w *World, tb *TB, f *ssa.Function) []swEntry {
 			case *ssa.Store:
 				if fa, ok := x.Addr.(*ssa.FieldAddr); ok {
 					if k, ok := x.Val.(*ssa.Const); ok && k.Value != nil {
-						out = append(out, swEntry{lit, fieldName(fa.X.Type(), fa.Field), k.Value.ExactString(), w.InstrPos(in)})
+						ctx := ""
+						for _, cd := range CondsAt(tgt) {
+							if cl, ok := cd.V.(*ssa.Call); ok && cd.Pos && CalleeName(cl.Common()) == "strings.HasPrefix" {
+								if pk, ok := cl.Call.Args[1].(*ssa.Const); ok && pk.Value != nil && pk.Value.Kind() == constant.String && ctx == "" {
+									ctx = constant.StringVal(pk.Value)
+								}
+							}
+						}
+						out = append(out, swEntry{Lit: lit, Target: fieldName(fa.X.Type(), fa.Field), Val: k.Value.ExactString(), Pos: w.InstrPos(in), Ctx: ctx})
 					}
 				}
 			case *ssa.Return:
 				if len(x.Results) > 0 {
 					if k, ok := x.Results[0].(*ssa.Const); ok && k.Value != nil {
-						out = append(out, swEntry{lit, "return", k.Value.ExactString(), w.InstrPos(in)})
+						out = append(out, swEntry{Lit: lit, Target: "return", Val: k.Value.ExactString(), Pos: w.InstrPos(in)})
 					}
 				}
 			}
@@ -399,7 +408,7 @@ func stringSwitchTables(w *World, tb *TB, f *ssa.Function) []swEntry {
 				for i, p := range s.Preds {
 					if p == tgt {
 						if k, ok := ph.Edges[i].(*ssa.Const); ok && k.Value != nil {
-							out = append(out, swEntry{lit, "phi", k.Value.ExactString(), w.Pos(litV.Pos())})
+							out = append(out, swEntry{Lit: lit, Target: "phi", Val: k.Value.ExactString(), Pos: w.Pos(litV.Pos())})
 						}
 					}
 				}
@@ -438,6 +447,18 @@ func ruleParserTables(c *Check, w *World, tb *TB, rule string) {
 		}
 		for _, e := range stringSwitchTables(w, tb, f) {
 			k := e.Lit + "|" + e.Target
+			if e.Target == "Challenge" {
+				// the width literal must be read in the context of its format letter: QN / QA / QH
+				pfxLit := e.Ctx
+				name := map[string]string{"QN08": "ChallengeNumeric08", "QN10": "ChallengeNumeric10", "QA08": "ChallengeAlpha08", "QA10": "ChallengeAlpha10", "QH08": "ChallengeHex08", "QH10": "ChallengeHex10"}[pfxLit+e.Lit]
+				if name == "" {
+					c.Unk(rule, FuncName(f), "token:"+pfxLit+e.Lit+"|Challenge", fmt.Sprintf("a challenge format is set for token %q%q, which is not a format of the RFC 6287 grammar known to the checker", pfxLit, e.Lit), e.Pos)
+					continue
+				}
+				found[k] = true
+				c.Decide(e.Val == enum(name), rule, FuncName(f), "token:"+pfxLit+e.Lit+"|Challenge", "challenge token maps to the format constant of the same letter and width", fmt.Sprintf("token %s%s sets Challenge=%s, expected %s (%s)", pfxLit, e.Lit, e.Val, enum(name), name), e.Pos)
+				continue
+			}
 			if wv, ok := want[k]; ok {
 				found[k] = true
 				c.Decide(e.Val == wv, rule, FuncName(f), "token:"+k, "token maps to the constant of the same name", fmt.Sprintf("token %q sets %s=%s, expected %s", e.Lit, e.Target, e.Val, wv), e.Pos)
